@@ -220,6 +220,9 @@ func TestC02(t *testing.T) {
 			cl = append(cl, "registered-field-renames")
 		}
 		for _, gt := range c.GoType {
+			if gt == "Vee" && c.VeeIsMap {
+				cl = append(cl, "named-map-with-methods-in-schema")
+			}
 			if gt == "Vee" {
 				cl = append(cl, "by-value-go-type-in-schema")
 				if exp != nil && !exp.Rejected {
